@@ -154,8 +154,10 @@ func (o *obs) verdict(where string, run, shutdown, cleanup, handler int, e *vs.E
 		}
 	}
 	for i, werr := range o.waitRes {
-		// only Wait calls invoked after a successful Start returned are constrained
-		constrained := false
+		// constrained: Wait calls invoked after a successful Start returned, and Wait calls
+		// racing Start that did not answer ErrServiceNotStarted (an answer other than "not
+		// started" claims the service is over, so every phase must have returned by then)
+		constrained := !errors.Is(werr, srv.ErrServiceNotStarted)
 		for j, r := range o.startRes {
 			if r == nil && o.startRet[j] <= o.waitCall[i] {
 				constrained = true
@@ -163,6 +165,9 @@ func (o *obs) verdict(where string, run, shutdown, cleanup, handler int, e *vs.E
 		}
 		if !constrained {
 			continue
+		}
+		if len(o.run) == 0 && run != 0 {
+			return "wait/returned-before-phases-finished", where + fmt.Sprintf(": Wait returned %v at %d, Run had not been invoked", werr, o.waitRet[i])
 		}
 		for _, sp := range [][]span{o.run, o.shutdown, o.cleanup} {
 			for _, s := range sp {
@@ -362,5 +367,5 @@ func build(tier string) ([]runner.Instance, time.Duration) {
 func main() {
 	runner.Main(runner.Options{Property: "C10", Level: "fault_enumeration", Build: build,
 		Rule:   "fault matrix {absent, ok, error, panic}^3 for Run/Shutdown/Cleanup x {absent, ok, panic} ErrorHandler x {Run returns, Close, parent cancel}, every cell under every schedule up to the deviation bound; plus 1-3 concurrent Start callers x Close x Wait on representative cells; evaluations = executions; distinct_nontrivial = distinct visible-step sequences with real contention",
-		Assume: []string{"model of sync/context/channels in verif/vs (DESIGN §2.2)", "absent Run: the nil call panics inside the service; only the phase order clauses are asserted for it", "only Wait calls invoked after a successful Start returned are constrained"}})
+		Assume: []string{"model of sync/context/channels in verif/vs (DESIGN §2.2)", "absent Run: the nil call panics inside the service; only the phase order clauses are asserted for it", "a Wait racing Start that answers ErrServiceNotStarted is not constrained; every other Wait is"}})
 }
